@@ -41,8 +41,10 @@ def main():
             print("REJECT: patch does not apply:", r.stderr[:500]); return 1
         r1 = sh(env_demo)
         ran.append({"cmd": "demo with the change", "exit": r1.returncode, "tail": (r1.stdout + r1.stderr)[-600:]})
-        rt = sh(f"cd {wt} && PYTHONDONTWRITEBYTECODE=1 timeout 1200 /venv/bin/python -m pytest -q -p no:cacheprovider --timeout=900 2>&1 | tail -3")
-        ran.append({"cmd": "pytest with the change", "tail": rt.stdout.strip()[-300:]})
+        rt = sh(f"cd {wt} && PYTHONPATH={wt}/src PYTHONDONTWRITEBYTECODE=1 timeout 1200 /venv/bin/python -m pytest -q -p no:cacheprovider --timeout=900 2>&1 | tail -3")
+        rw = sh(f"cd {wt} && PYTHONPATH={wt}/src /venv/bin/python -c 'import pydsol.core.simulator as s; print(s.__file__)'")
+        assert str(wt) in rw.stdout, "test suite would not import the worktree: " + rw.stdout
+        ran.append({"cmd": "pytest with the change (PYTHONPATH=<worktree>/src, so the changed sources are what is tested)", "tail": rt.stdout.strip()[-300:]})
         head = sh("git -C /repo rev-parse --short HEAD").stdout.strip()
         ok = r0.returncode == 0 and r1.returncode != 0 and " passed" in rt.stdout and "failed" not in rt.stdout and "error" not in rt.stdout.lower()
         print(json.dumps(ran, indent=1))
